@@ -52,7 +52,9 @@ class ForceTorqueTrack(Sized, BuildWriteable):
 
     @property
     def _segments(self):
-        maskedPressureData = np.ma.masked_invalid(self.application_point)
+        maskedPressureData = np.ma.masked_where(
+            np.isnan(self.application_point), self.application_point
+        )
         return np.ma.clump_unmasked(maskedPressureData.T[0])
 
     @_segments.setter
